@@ -453,6 +453,12 @@ nlopt_result ccsa_quadratic_minimize(
 		    ret = NLOPT_FORCED_STOP; goto done; }
 	       feasible_cur = 1; infeasibility_cur = 0;
 	       inner_done = dd.gval >= fcur;
+	       if (nlopt_isnan(fcur) || nlopt_isnan(dd.gval)) {
+		    /* the conservative-approximation test below can never
+		       succeed, and rho is not increased either: without
+		       this, the same point is re-evaluated until the
+		       evaluation limit (if any) is reached */
+		    ret = NLOPT_ROUNDOFF_LIMITED; goto done; }
 	       for (i = ifc = 0; ifc < mfc; ++ifc) {
 		    nlopt_eval_constraint(fcval_cur + i, dfcdx_cur + i*n,
 					  fc + ifc, n, xcur);
@@ -510,6 +516,8 @@ nlopt_result ccsa_quadratic_minimize(
 
 	       if (fcur > dd.gval)
 		    rho = MIN(10*rho, 1.1 * (rho + (fcur-dd.gval) / dd.wval));
+	       if (nlopt_isinf(rho)) { /* e.g. fcur = +Inf however small the step */
+		    ret = NLOPT_ROUNDOFF_LIMITED; goto done; }
 	       for (i = 0; i < m; ++i)
 		    if (fcval_cur[i] > dd.gcval[i])
 			 rhoc[i] =
